@@ -86,6 +86,10 @@ def tr_expr(node, call, env):
             call.approximated.append(ast.unparse(node.value)[:60])
             return z3.String(f"fmt{call.i}_{len(call.approximated)}")
         return tr_expr(node.value, call, env)
+    if isinstance(node, ast.IfExp):
+        cond = tr_cond(node.test, call, env)
+        a, b = tr_expr(node.body, call, env), tr_expr(node.orelse, call, env)
+        return z3.If(cond, a, b) if cond is not None else call_opaque(call, node)
     if isinstance(node, ast.BinOp) and isinstance(node.op, ast.Add):
         return z3.Concat(tr_expr(node.left, call, env), tr_expr(node.right, call, env))
     if isinstance(node, ast.Attribute) and node.attr == "hex" and _is_uuid4_call(node.value):
@@ -138,6 +142,27 @@ def tr_expr(node, call, env):
 
 
 COUNTER = object()
+
+
+def call_opaque(call, node):
+    call.approximated.append(ast.unparse(node)[:60])
+    return z3.String(f"opaque{call.i}_{len(call.approximated)}")
+
+
+def tr_cond(node, call, env):
+    """Boolean conditions over strings that occur in naming code; None if not translatable (caller over-approximates)."""
+    if isinstance(node, ast.Call) and isinstance(node.func, ast.Attribute) and node.func.attr in ("endswith", "startswith") and len(node.args) == 1:
+        s, x = tr_expr(node.func.value, call, env), tr_expr(node.args[0], call, env)
+        return z3.SuffixOf(x, s) if node.func.attr == "endswith" else z3.PrefixOf(x, s)
+    if isinstance(node, ast.UnaryOp) and isinstance(node.op, ast.Not):
+        c = tr_cond(node.operand, call, env)
+        return None if c is None else z3.Not(c)
+    if isinstance(node, ast.Compare) and len(node.ops) == 1 and isinstance(node.ops[0], (ast.Eq, ast.NotEq)):
+        a, b = tr_expr(node.left, call, env), tr_expr(node.comparators[0], call, env)
+        return (a == b) if isinstance(node.ops[0], ast.Eq) else (a != b)
+    if isinstance(node, ast.Name) and node.id in env and z3.is_string(env[node.id]):
+        return z3.Length(env[node.id]) > 0
+    return None
 
 
 def _tr_block(stmts, call, env):
@@ -225,6 +250,12 @@ def entry_point_names():
             rel = rel.target
         return rel.name
 
+    out.append(("engine.materialize (default prefix)", "materialization_", mat_name(it.materialize(L.without_duplicates())),
+                mat_name(it.materialize(L.without_duplicates()))))
+    out.append(("sql engine.materialize (default prefix)", "materialization_", mat_name(sq.materialize(S.without_duplicates())),
+                mat_name(sq.materialize(S.without_duplicates()))))
+    out.append(("leaf with a prefix ending in an underscore", "tmp_", it.make_leaf({a, b}, iteration.RowSequence([]), name_prefix="tmp_").name,
+                it.make_leaf({a, b}, iteration.RowSequence([]), name_prefix="tmp_").name))
     for label, mk in cases.items():
         pfx = "upload" if "upload" in label and "prefix" in label else "win" if "win prefix" in label else "materialization"
         out.append((label, pfx, mat_name(mk()), mat_name(mk())))
@@ -318,7 +349,7 @@ def real_collision(prefix="leaf"):
     from lsst.daf.relation import iteration, sql
 
     tried = []
-    for pfx in dict.fromkeys([prefix, "leaf", "p" * 62, ""]):
+    for pfx in dict.fromkeys([prefix, "leaf", "p" * 62, "", "materialization_", "_", "x_"]):
         e1, e2 = iteration.Engine(name="e1"), sql.Engine(name="e2")
         names = [e1.get_relation_name(pfx), e1.get_relation_name(pfx), e2.get_relation_name(pfx), e2.get_relation_name(pfx)]
         if len(set(names)) != len(names):
